@@ -29,6 +29,7 @@ type Plan struct {
 	Skew     bool   // replicas persist at different heights (wall-clock independence, C09)
 	Mempool  bool   // every second replica runs CheckTx before DeliverTx (mempool independence, C09)
 	Restart  bool   // the last replica is restarted from its state file after every Commit (C09)
+	NoSave   bool   // C13 twins without the periodic save (only files the app writes by itself)
 	MaxBeh   int    // cap on replayed behaviours (0 = all)
 }
 
@@ -237,6 +238,11 @@ func ReplayAndValidate(c *core.Ctx, g *Gen, replicas int) (*Outcome, error) {
 	if len(g.SpecCex) > 0 {
 		// a spec-level counterexample is a lead: it is always replayed on the real code
 		beh = append([][]int{g.SpecCex}, beh...)
+	}
+	C13NoPeriodicSave = g.Plan.NoSave
+	defer func() { C13NoPeriodicSave = false }()
+	if g.Plan.Twins == "c13" {
+		defer SetC13SaveMode()()
 	}
 	MempoolSkew = g.Plan.Mempool
 	RestartSkew = g.Plan.Restart
